@@ -107,6 +107,15 @@ func (e *Engine) registerIntrinsics() {
 		}
 		return res
 	}
+	n["(crypto.Hash).Size"] = func(e *Engine, st *State, a []Value, ci ssa.CallInstruction) Value {
+		sizes := map[uint64]int64{1: 16, 2: 16, 3: 20, 4: 28, 5: 32, 6: 48, 7: 64, 8: 36, 9: 20, 10: 28, 11: 32, 12: 48, 13: 64, 14: 28, 15: 32, 16: 32, 17: 32, 18: 64, 19: 64}
+		t := a[0].(BV).T
+		if !t.IsConst() {
+			panic(abortSignal{"crypto.Hash.Size of symbolic hash"})
+		}
+		return BV{I64(sizes[t.C])}
+	}
+	n["(crypto.Hash).HashFunc"] = func(e *Engine, st *State, a []Value, ci ssa.CallInstruction) Value { return a[0] }
 	nop := func(e *Engine, st *State, a []Value, ci ssa.CallInstruction) Value { return nil }
 	n["(*sync.Mutex).Lock"] = nop
 	n["(*sync.Mutex).Unlock"] = nop
